@@ -77,6 +77,7 @@ _SEED = int(os.environ.get("VERIF_SEED", "0") or 0)
 _IDPOOL = [("aabbcc", "18"), ("3c4d5e", "a5"), ("0102ff", "00"), ("f0e1d2", "ff"), ("00ff10", "07")]
 IDS = [_IDPOOL[_SEED % 5], _IDPOOL[(_SEED + 1 + _SEED // 5 % 4) % 5]]
 T0 = 1_700_000_000.25
+SPECIAL_IDS = ["f00000", "fef000", "0fef00", "00fef0", "f0fef0", "fef0fe", "f0fe00", "00f0fe", "000000", "ffffff", "0000fe", "fe0000", "0a0d0a", "303030"]
 
 
 def resolve(name):
@@ -163,7 +164,8 @@ def check_op(res, case, who, kind, did, key, rec, session, frames, wtimes):
 def run_sequence(kind, names, res, case, record_states=True):
     set_zone(case.get("zone") or "UTC")
     frozen = bool(case.get("frozen"))  # every operation of the sequence happens within one clock second
-    with Clock(T0) as clk, ApiWorld(kind, *IDS[0], device=Device(0x5E000000)) as w:
+    ids = tuple(case.get("ids") or IDS[0])
+    with Clock(T0) as clk, ApiWorld(kind, *ids, device=Device(0x5E000000)) as w:
         out = w.connect()
         if out[0] != "ok":
             res.violation("connect-failed", case, f"connect: {out}")
@@ -186,7 +188,7 @@ def run_sequence(kind, names, res, case, record_states=True):
             if len(w.device.sessions) - s0 > 1:
                 res.violation(f"multiple-logins:{name}", case, f"{name}: {len(w.device.sessions) - s0} logins in one operation")
             rec = {"name": name, "t0": t0, "out": outcome}
-            if check_op(res, case, f"op#{n}", kind, IDS[0][0], IDS[0][1], rec, sess, writes, w.conn.write_times[w0:]):
+            if check_op(res, case, f"op#{n}", kind, ids[0], ids[1], rec, sess, writes, w.conn.write_times[w0:]):
                 checked += 1
             if b"".join(writes) != b"".join(rx):
                 res.violation("wire-differs-from-writes", case, f"{name}: wire bytes differ from written frames")
@@ -375,6 +377,7 @@ def jobs(tier, seed):
         for zone in ("Asia/Kathmandu", "America/New_York", "Pacific/Kiritimati"):
             js.append({"part": "zoned", "kind": kind, "zone": zone, "depth": 2 if tier == "thorough" else 1})
     for kind in (1, 2):
+        js.append({"part": "ids", "kind": kind})
         js.append({"part": "long", "kind": kind, "rounds": 40 if tier == "thorough" else 20})
     specs = pair_specs(tier)
     n = 48 if tier == "thorough" else 16
@@ -397,6 +400,17 @@ def run_job(job):
                     res.case(("zoned", kind, job["zone"], names), nontrivial=checked >= 1)
         finally:
             set_zone("UTC")
+        return res
+    if job["part"] == "ids":
+        # device ids whose hex spelling, next to the header terminator f0fe or on its own, reads like protocol markers
+        kind = job["kind"]
+        for did in SPECIAL_IDS:
+            for key in ("18", "00"):
+                names = list(ALPHA[kind])
+                case = {"part": "seq", "kind": kind, "names": names, "ids": [did, key]}
+                checked = run_sequence(kind, names, res, case, record_states=False)
+                res.traces += 1
+                res.case(("ids", kind, did, key), nontrivial=checked >= 2)
         return res
     if job["part"] == "long":
         # one connection lives through hundreds of operations (every kind, in a rotating order)
